@@ -27,7 +27,7 @@ def _perm_sign(seq):
 class GramSpace:
     """the set of named basis vectors of one contract run; owns the atoms and their relations"""
 
-    def __init__(self, cx, names):
+    def __init__(self, cx, names, rank3=True):
         self.cx = cx
         self.names = list(names)
         cx.gram = self
@@ -48,7 +48,7 @@ class GramSpace:
             cx.facts.append(("gram:psd3:%s" % "".join(tri), (d >= 0).t))
         for tri in itertools.combinations(self.names, 3):
             self.t(*tri)
-        if len(self.names) >= 4:
+        if len(self.names) >= 4 and rank3:
             # four vectors of R^3 are linearly dependent: their 4x4 Gram determinant vanishes
             for quad in itertools.combinations(self.names, 4):
                 M = [[self.g(x, y) for y in quad] for x in quad]
@@ -205,6 +205,24 @@ def _dot_elem(e1, e2):
     return G.g(a, c) * G.g(b, d) - G.g(a, d) * G.g(b, c)
 
 
+def _same_vec(u, v):
+    if u is v:
+        return True
+    if set(u.c) != set(v.c):
+        return False
+    for k in u.c:
+        a, b = u.c[k], v.c[k]
+        if is_num(a) and is_num(b):
+            if a != b:
+                return False
+        elif isinstance(a, S) and isinstance(b, S):
+            if a.p.key() != b.p.key():
+                return False
+        else:
+            return False
+    return True
+
+
 def dot(u, v):
     if not isinstance(u, AbsVec) or not isinstance(v, AbsVec):
         raise Unsupported("dot of abstract and concrete vector")
@@ -212,6 +230,8 @@ def dot(u, v):
     for k1, c1 in u.c.items():
         for k2, c2 in v.c.items():
             tot = tot + c1 * c2 * _dot_elem(k1, k2)
+    if isinstance(tot, S) and _same_vec(u, v):
+        tot.nn = True          # squared norm of a vector: non-negative by construction (the Gram matrix is positive semidefinite)
     return tot
 
 
@@ -270,3 +290,32 @@ def realise(names, gval, tsign=1.0):
         if d * tsign < 0:
             X[:, 2] *= -1
     return {nm: np.ascontiguousarray(X[i]) for i, nm in enumerate(names)}
+
+
+class AbsRows:
+    """an (n, 3) array whose rows are abstract vectors (e.g. triangle_points)"""
+    ndim = 2
+
+    def __init__(self, rows):
+        self.rows = list(rows)
+        self.shape = (len(self.rows), 3)
+
+    def __getitem__(self, i):
+        if isinstance(i, slice):
+            return AbsRows(self.rows[i])
+        return self.rows[i]
+
+    def __len__(self):
+        return len(self.rows)
+
+    def __iter__(self):
+        return iter(self.rows)
+
+
+def coefficient(v, name):
+    """coefficient of the basis vector `name` in the abstract vector v (0 if absent)"""
+    return v.c.get(("v", name), 0.0)
+
+
+def has_only(v, names):
+    return all(k[0] == "v" and k[1] in names for k in v.c)
